@@ -277,6 +277,13 @@ def r5(ctx, report):
             r = s2["pl"]["l"]
             ok = False
             why = "it is passed to code other than a closure of Packet::parse"
+            # used directly: the borrow may only be the receiver of Vec::remove
+            users = [tt for _, tt in mu.calls(pp, r".") if any(mu.op_local(a) == r for a in tt["args"])]
+            if users and all(tt["callee"] and tt["callee"]["def"] in ("std::vec::Vec::<T, A>::remove", "std::vec::Vec::<T, A>::pop") and mu.op_local(tt["args"][0]) == r
+                             for tt in users):
+                ok = True
+            elif users:
+                why = "it is passed to %s" % sorted(set(tt["callee"]["def"] if tt["callee"] else "?" for tt in users))
             for bj, bl2 in enumerate(pp.blocks):
                 for s3 in bl2["stmts"]:
                     if s3["s"] == "assign" and s3["rv"]["k"] == "agg" and s3["rv"].get("ak") == "closure" and \
@@ -288,7 +295,7 @@ def r5(ctx, report):
                             if a0 is not None and a0.get("o") in ("copy", "move") and \
                                     cb.ty(a0["pl"]["t"])["s"].startswith("&mut std::vec::Vec<"):
                                 muts.append(tt["callee"]["def"])
-                        bad = [m for m in muts if m != "std::vec::Vec::<T, A>::remove"]
+                        bad = [m for m in muts if m not in ("std::vec::Vec::<T, A>::remove", "std::vec::Vec::<T, A>::pop")]
                         if cb is not None and not bad and len(muts) <= 1:
                             ok = True
                         else:
